@@ -151,6 +151,8 @@ def parse_operand(s):
         return ('copy', parse_place(s[14:]))
     if s.startswith('const '):
         return ('const', parse_const(s[6:].strip()))
+    if re.match(r'^[A-Za-z_<{]', s) and not s.startswith(('_', 'move', 'copy')):
+        return ('const', ('named', s))      # a function item / ZST passed by name
     raise ValueError('operand: ' + s)
 
 
